@@ -489,6 +489,16 @@ class SetterScenario(BaseScenario):
             return "skipped"
         if invalid:
             before_raw = self.raw_view(ws, ref, owner)
+        elif isinstance(value, np.ndarray) and value.dtype.names is None and r.random() < 0.3:
+            # read-modify-assign idiom: the array handed out by the getter is edited in place and assigned back
+            try:
+                cur = getattr(owner, attr)
+            except Exception:  # pylint: disable=broad-except
+                cur = None
+            if isinstance(cur, np.ndarray) and cur.shape == value.shape and cur.dtype.kind == value.dtype.kind and cur.flags.writeable and not np.array_equal(cur, value):
+                cur[...] = value
+                value = cur
+                sim.probe("edited_in_place_then_assigned")
         try:
             setattr(owner, attr, value)
             raised = None
